@@ -363,6 +363,15 @@ fn mutate_sig(sig: &[u8], m: &Value) -> Vec<u8> {
                 *x = c;
             }
         }
+        // longer / shorter than a signature AND not containing the correct one
+        "flipappend" => {
+            s[0] = if s[0] == b'0' { b'1' } else { b'0' };
+            s.extend_from_slice(&bytes_of(m.get("b").unwrap_or(&Value::Null)));
+        }
+        "fliptrunc" => {
+            s[0] = if s[0] == b'0' { b'1' } else { b'0' };
+            s.truncate(get_i64(m, "n") as usize);
+        }
         _ => {}
     }
     s
